@@ -48,6 +48,8 @@ _MODE_PROPS = {
     'cbc': ['C02', 'C01', 'C07', 'C12', 'C09'], 'pcbc': ['C02', 'C01', 'C07', 'C12', 'C09'], 'ige': ['C02', 'C01', 'C07', 'C12', 'C09'],
     'cfb': ['C03', 'C01', 'C07', 'C12', 'C14'], 'cfb8': ['C03', 'C01', 'C07', 'C12', 'C08', 'C09'], 'ofb': ['C03', 'C01', 'C07', 'C12', 'C14', 'C09'],
     'cfbbuf': ['C03', 'C08', 'C13', 'C14', 'C09', 'C01'],
+    'ctr': ['C04', 'C01', 'C07', 'C08', 'C10', 'C12', 'C14'],
+    'belt': ['C06', 'C01', 'C07', 'C08', 'C10', 'C12'],
 }
 
 
